@@ -6,6 +6,7 @@ package main
 import (
 	"fmt"
 	"go/token"
+	"go/types"
 	"sort"
 	"strings"
 )
@@ -203,11 +204,13 @@ func (c *Check) keyGrammar(prefix string, families map[string]bool) {
 			if !strings.HasSuffix(c.P.Fset.Position(f.Body.Pos()).Filename, "keys.go") {
 				continue
 			}
-			if f.Name == "types.getStringsKey" {
-				c.checkStringsKey(prefix, f)
+			b := kt.Builders[f.Name]
+			if b == nil && c.listParametric(f) {
+				// a helper over a list of parts (join, separator join): it has no shape of its own and is
+				// interpreted at each call with the list it is given; the builders that use it must be understood
+				c.ok(prefix+".K1", f.Name, f.Body.Pos(), "list-parametric key helper: interpreted at its call sites")
 				continue
 			}
-			b := kt.Builders[f.Name]
 			if b == nil {
 				// a key fragment helper (no prefix of its own): it must be fully understood
 				if sh, ok := c.P.shapeOfBuilder(kt, f); ok && len(sh) > 0 {
@@ -323,6 +326,17 @@ func condStr(b bool, s string) string {
 		return s
 	}
 	return ""
+}
+
+// listParametric: a key helper with a slice-of-strings / slice-of-byte-strings (or variadic) parameter.
+func (c *Check) listParametric(f *Func) bool {
+	for _, pr := range f.Params {
+		if sl, ok := pr.Type().Underlying().(*types.Slice); ok && !isByteSlice(pr.Type()) {
+			_ = sl
+			return true
+		}
+	}
+	return false
 }
 
 // checkStringsKey verifies getStringsKey against its model "join with Sep".
